@@ -103,10 +103,18 @@ theorem getUser_auth (st : St) (s : Str) : AuthFrom st.db.users [] (getUser st s
     have e : st' = (getUserId st s).1 := by rw [h]
     rw [e]; exact this
 
+theorem checkCapabilityS_state' (st : St) (h cap : Str) (fl : Flags) :
+    (checkCapabilityS st h cap fl).1 = st ∨ (checkCapabilityS st h cap fl).1 = (getUser st h).1 := by
+  unfold checkCapabilityS recogniseS
+  split
+  · exact Or.inl rfl
+  · exact Or.inr rfl
+
 theorem checkCapabilityS_auth (st : St) (h cap : Str) (fl : Flags) :
     AuthFrom st.db.users [] (checkCapabilityS st h cap fl).1.db.users := by
-  unfold checkCapabilityS recogniseS
-  exact getUser_auth st h
+  rcases checkCapabilityS_state' st h cap fl with e | e <;> rw [e]
+  · exact authFrom_refl _ _
+  · exact getUser_auth st h
 
 theorem finalRecord_auth (r : St) (u : User) (live : Bool) :
     ∀ e ∈ (finalRecord r u live).auth,
@@ -408,11 +416,6 @@ theorem getUser_state (st : St) (s : Str) : (getUser st s).1 = (getUserId st s).
 theorem getUser_inv {st : St} (hi : Inv st) (s : Str) : Inv (getUser st s).1 := by
   rw [getUser_state]; exact getUserId_inv hi s
 
-theorem checkCapabilityS_state (st : St) (h cap : Str) (fl : Flags) :
-    (checkCapabilityS st h cap fl).1 = (getUserId st h).1 := by
-  unfold checkCapabilityS recogniseS
-  exact getUser_state st h
-
 theorem convUser_state (st : St) (p : Str) : (convUser st p).1 = (getUserId st p).1 := by
   unfold convUser; exact getUser_state st p
 
@@ -439,8 +442,10 @@ theorem quiet_convUser (st : St) (p : Str) : Quiet st (convUser st p).1 := by
 
 theorem quiet_callerIsOwner (st : St) (p : Str) : Quiet st (callerIsOwner st p).1 := by
   unfold callerIsOwner
-  simp only [checkCapabilityS_state]
-  exact quiet_getUserId st p
+  dsimp only
+  rcases checkCapabilityS_state' st p ownerS {} with e | e <;> rw [e]
+  · exact quiet_refl st
+  · exact quiet_getUser st p
 
 theorem convFirst_state (st : St) (p a : Str) :
     (convFirst st p a).1 = (convUser st p).1 ∨ (convFirst st p a).1 = (getUser st a).1 ∨
